@@ -21,6 +21,7 @@ from translate import formatre as tr_formatre
 from translate import formatattrs as tr_formatattrs
 from translate import formataccept as tr_formataccept
 from translate import formatloops as tr_formatloops
+from translate import formatsigs as tr_formatsigs
 
 PROP = "C17"
 
@@ -482,7 +483,7 @@ def gen_format_structured(rng):
         elif m == "manual":
             name = str(rng.choice([0, 0, 0, 1, 1, 2, 3, 10]))
         else:
-            name = rng.choice(["a", "a", "b", "w", "zz", "a b", "0a", "+0", "-1", " 0", "0 ", "0_0", "1_", "\u00b2", "\u0663", "00", "+", "0x1", "1e0", "\u0661\u0660"])
+            name = rng.choice(["a", "a", "b", "w", "zz", "self", "args", "kwargs", "a b", "0a", "+0", "-1", " 0", "0 ", "0_0", "1_", "\u00b2", "\u0663", "00", "+", "0x1", "1e0", "\u0661\u0660"])
         path = rng.choice(F_PATHS) if rng.random() < 0.3 else ""
         conv = rng.choice(["", "", "", "", "!r", "!s", "!a", "!x", "!"])
         spec = gen_spec_text(rng)
@@ -494,7 +495,7 @@ def gen_format_structured(rng):
     t = "".join(parts)
     nargs = rng.choice([0, 1, 1, 2, 2, 3])
     args = [rng.choice(F_ARG_POOL if rng.random() < 0.7 else [1, 5, 2, "a", 1.5]) for _ in range(nargs)]
-    kwargs = {k: rng.choice(F_ARG_POOL) for k in rng.sample(["a", "b", "w", "zz"], rng.choice([0, 0, 1, 2]))}
+    kwargs = {k: rng.choice(F_ARG_POOL) for k in rng.sample(["a", "b", "w", "zz", "self", "args", "kwargs"], rng.choice([0, 0, 1, 2]))}
     return t, args, kwargs
 
 
@@ -650,7 +651,8 @@ def safe_args(t, a):
 def gen_files():
     return {"FormatRe.v": tr_formatre.translate(str(lib.REPO)), "FormatAttrs.v": tr_formatattrs.translate(),
             "FormatAccept.v": tr_formataccept.translate(str(lib.REPO)),
-            "FormatLoops.v": tr_formatloops.translate(str(lib.REPO))}
+            "FormatLoops.v": tr_formatloops.translate(str(lib.REPO)),
+            "FormatSigs.v": tr_formatsigs.translate(str(lib.REPO))}
 
 
 def load_corpus():
@@ -790,18 +792,25 @@ def end_to_end(cases, direct):
     for ln, (ci, expr, kind) in index.items():
         es = by_line.get(ln, [])
         codes = [e["code"].name for e in es if e["code"].name != "reveal_type"]
-        if kind != "fstring":
-            want = direct[ci]
-            got = any(c in ("bad_format_string", "incompatible_call") for c in codes)
-            other = [c for c in codes if c not in ("bad_format_string", "incompatible_call")]
-            if got != want or other:
-                mismatches.append((ci, expr, codes, want))
         rv = [revealed(e["message"]) for e in es if e["code"].name == "reveal_type"]
         raised = False
         try:
             actual = eval(expr, {})  # the oracle: CPython itself
         except Exception:
             raised = True
+        if kind != "fstring":
+            want = direct[ci]
+            got = any(c in ("bad_format_string", "incompatible_call") for c in codes)
+            other = [c for c in codes if c not in ("bad_format_string", "incompatible_call")]
+            if got != want or other:
+                # the call machinery around the checker (argument binding, signatures) disagrees with
+                # the direct call: a concrete failing input when CPython sides with the direct call
+                if (got or other) and not want and not raised:
+                    mismatches.append((-2, expr, codes, "reported end to end (not by the format checker itself) but CPython evaluates it fine"))
+                elif want and not got and raised:
+                    mismatches.append((-2, expr, codes, "CPython raises and the format checker reports it, but nothing is reported end to end"))
+                else:
+                    mismatches.append((ci, expr, codes, want))
         if kind == "fstring":
             # an f-string with literal operands: formatting raises  <=>  bad_format_string is reported
             got = "bad_format_string" in codes
@@ -819,6 +828,122 @@ def end_to_end(cases, direct):
         elif rv[0][0] != "type" or rv[0][1] != type(actual).__name__:
             type_mismatches.append((ci, expr, rv, repr(actual)[:60]))
     return len(index), mismatches, types_checked, type_mismatches
+
+
+# keyword / field names that collide with something on the way to _str_format_impl: parameter names
+# of the hand-written signatures, names commonly used for templates and mappings, Python keywords
+# (legal field names, passable through **{...} only), dunder-looking names, non-identifiers
+import keyword as _keyword
+
+CALL_NAME_POOL = ["self", "args", "kwargs", "format_string", "template", "mapping", "fmt", "cls", "ctx", "x", "name",
+                  "class", "def", "if", "None", "True", "lambda", "__class__", "__init__", "__format__", "__self__", "_", "a b", "0a", "+0"]
+
+
+def _kw_source(kwargs, force_star=False):
+    if not kwargs:
+        return []
+    simple = all(k.isidentifier() and not _keyword.iskeyword(k) for k in kwargs)
+    if simple and not force_star:
+        return [f"{k}={src_literal(v)}" for k, v in kwargs.items()]
+    return ["**" + src_literal(dict(kwargs))]
+
+
+def gen_callform(rng):
+    """A formatting *call* written in one of the forms Python offers, with keyword names from
+    CALL_NAME_POOL.  Returns (source, modelled, description): `modelled` = pyanalyze checks the
+    template in this form (then report <=> raise, up to the 'not used' lint); otherwise only
+    'no report when CPython formats fine' is required."""
+    form = rng.choice(["bound", "bound", "unbound", "unbound", "format_map", "mod_op", "mod_dunder", "mod_unbound", "operator_mod"])
+    if form in ("bound", "unbound", "format_map"):
+        npos = 0 if form == "format_map" else rng.choice([0, 0, 1, 2])
+        numbering = rng.choice(["auto", "manual"])
+        names = rng.sample(CALL_NAME_POOL, rng.choice([1, 1, 2]))
+        parts = []
+        for i in range(npos):
+            parts.append("{}" if numbering == "auto" else "{" + str(i) + "}")
+        for n in names:
+            parts.append("{" + n + rng.choice(["", "", "", "!r", ".real"]) + "}")
+        rng.shuffle(parts)
+        if numbering == "auto":  # keep automatic fields in order (they are interchangeable)
+            pass
+        t = " ".join(parts)
+        args = [rng.choice([1, "s", 2.5]) for _ in range(npos)]
+        kwargs = {n: rng.choice([1, 3, 2.5]) for n in names}
+        p = rng.random()
+        if p < 0.2 and kwargs:
+            kwargs.pop(rng.choice(list(kwargs)))  # KeyError
+        elif p < 0.3:
+            kwargs[rng.choice(["unused_kw", "self", "args"])] = 0  # 'not used' lint (or used, if it is a field)
+        elif p < 0.4 and args:
+            args.pop()  # IndexError
+        force_star = rng.random() < 0.3
+        if form == "bound":
+            src = f"{t!r}.format({', '.join([src_literal(a) for a in args] + _kw_source(kwargs, force_star))})"
+        elif form == "unbound":
+            src = f"str.format({', '.join([repr(t)] + [src_literal(a) for a in args] + _kw_source(kwargs, force_star))})"
+        else:
+            src = f"{t!r}.format_map({src_literal(dict(kwargs))})"
+        return src, form != "format_map", form
+    # the % operator and its spellings
+    names = rng.sample(CALL_NAME_POOL, rng.choice([1, 2]))
+    if rng.random() < 0.5:
+        t = " ".join("%(" + n + ")s" for n in names if ")" not in n)
+        a = {n: rng.choice([1, "v"]) for n in names}
+        if rng.random() < 0.2 and a:
+            a.pop(rng.choice(list(a)))
+    else:
+        k = rng.choice([1, 2])
+        t = " ".join(rng.choice(["%s", "%d", "%r"]) for _ in range(k))
+        a = tuple(rng.choice([1, 2, "v"]) for _ in range(k + rng.choice([0, 0, 0, -1, 1])))
+    if not t:
+        t = "%s"
+        a = (1,)
+    asrc = src_literal(a)
+    if form == "mod_op":
+        return f"{t!r} % {asrc}", True, form
+    if form == "mod_dunder":
+        return f"{t!r}.__mod__({asrc})", False, form
+    if form == "mod_unbound":
+        return f"str.__mod__({t!r}, {asrc})", False, form
+    return f"operator.mod({t!r}, {asrc})", False, form
+
+
+def check_callforms(cases):
+    """Run the call forms through NameCheckVisitor and CPython.  Returns (n, failures)."""
+    import io
+    import contextlib
+    from pyanalyze.test_name_check_visitor import TestNameCheckVisitorBase
+    from pyanalyze.error_code import ErrorCode
+
+    lines = ["import operator", "def f():"]
+    index = {}
+    for src, modelled, form in cases:
+        lines.append(f"    print({src})")
+        index[len(lines)] = (src, modelled, form)
+    buf = io.StringIO()
+    with contextlib.redirect_stderr(buf), contextlib.redirect_stdout(buf):
+        errs = TestNameCheckVisitorBase()._run_str("\n".join(lines) + "\n", fail_after_first=False,
+                                                   settings={ErrorCode.use_fstrings: False, ErrorCode.duplicate_dict_key: False, ErrorCode.missing_f: False})
+    by_line = {}
+    for e in errs:
+        by_line.setdefault(e["lineno"], []).append(e)
+    failures = []
+    hist = {}
+    for ln, (src, modelled, form) in index.items():
+        es = by_line.get(ln, [])
+        msgs = [(e["code"].name, e["message"].strip().splitlines()[0] if e["message"].strip() else "") for e in es]
+        try:
+            eval(src, {"operator": __import__("operator")})
+            raised = None
+        except Exception as ex:
+            raised = type(ex).__name__
+        nonlint = [m for m in msgs if "were not used" not in m[1]]
+        _bump(hist, form + ("/raise" if raised else "/ok") + ("/reported" if msgs else "/silent"))
+        if raised is None and nonlint:
+            failures.append((src, f"reported {nonlint[0][0]}: {nonlint[0][1][:90]} but CPython evaluates the call fine", form))
+        elif raised is not None and modelled and not msgs:
+            failures.append((src, f"CPython raises {raised}, nothing reported", form))
+    return len(index), failures, hist
 
 
 def gen_fstring(rng):
@@ -1311,7 +1436,7 @@ def run(tier: str, replay: str | None = None):
     proof = None
     try:
         gen = gen_files()
-    except (tr_formatre.TranslateError, tr_formataccept.TranslateError, tr_formatloops.TranslateError) as ex:
+    except (tr_formatre.TranslateError, tr_formataccept.TranslateError, tr_formatloops.TranslateError, tr_formatsigs.TranslateError) as ex:
         broken_translation = str(ex)
         gen = None
     if gen is not None:
@@ -1334,6 +1459,7 @@ def run(tier: str, replay: str | None = None):
 
     # 3. cases, implementation, oracle
     replay_expr = None
+    replay_callform = None
     replay_typed = None
     if replay:
         r = json.loads(Path(replay).read_text())
@@ -1342,6 +1468,7 @@ def run(tier: str, replay: str | None = None):
         if c.get("kind") == "expression":
             main_cases = []
             replay_expr = c["python"]
+            replay_callform = c.get("callform")
         elif c.get("kind") == "typed":
             main_cases = []
             replay_typed = (c["template"], c["targs"])
@@ -1395,7 +1522,7 @@ def run(tier: str, replay: str | None = None):
     # 4. end to end through NameCheckVisitor: reports and revealed types, plus f-strings
     e2e = (0, [], 0, [])
     n_fstrings = 0
-    if replay and replay_expr is not None:
+    if replay and replay_expr is not None and not replay_callform:
         e2e = end_to_end([(-1, ("fstring", replay_expr))], {})
     if not replay:
         step = max(1, len(main_cases) // (500 if tier == "quick" else 3000))
@@ -1410,8 +1537,23 @@ def run(tier: str, replay: str | None = None):
         except Exception as ex:  # noqa
             rep.harness_error(f"end-to-end stream failed: {type(ex).__name__}: {ex}")
     e2e_checked, e2e_mismatch, e2e_types, e2e_type_mismatch = e2e
+    callform_n, callform_fail, callform_hist = 0, [], {}
+    if replay and replay_expr is not None and replay_callform:
+        callform_n, callform_fail, callform_hist = check_callforms([(replay_expr, replay_callform == "modelled", "replay")])
+    elif not replay:
+        fixed = [('"{self}".format(self=1)', True, "bound"), ('"{self.real} {self.imag}".format(self=3)', True, "bound"),
+                 ('str.format("{} {self}", 1, self=2)', True, "unbound"), ('"{args} {kwargs}".format(args=1, kwargs=2)', True, "bound"),
+                 ('"{0} {self!r:>4}".format("a", self="b")', True, "bound"), ('"{self}".format(other=1)', True, "bound"),
+                 ('"{class}".format(**{"class": 1})', True, "bound"), ('str.format("{format_string}", format_string=1)', True, "unbound"),
+                 ('"{self}".format_map({"self": 1})', False, "format_map"), ('str.__mod__("%(self)s", {"self": 1})', False, "mod_unbound")]
+        try:
+            callform_n, callform_fail, callform_hist = check_callforms(fixed + [gen_callform(rng) for _ in range(400 if tier == "quick" else 4000)])
+        except Exception as ex:  # noqa
+            rep.harness_error(f"call-form stream failed: {type(ex).__name__}: {ex}")
     fstring_mismatch = [m for m in e2e_mismatch if m[0] == -1]
-    e2e_mismatch = [m for m in e2e_mismatch if m[0] != -1]
+    callpath_mismatch = [m for m in e2e_mismatch if m[0] == -2]
+    e2e_mismatch = [m for m in e2e_mismatch if m[0] not in (-1, -2)]
+    callform_extra = [(m[1], f"{m[3]} (codes: {m[2]})", "bound") for m in callpath_mismatch]
 
     # 5. verdicts
     for fid, n in total["known"].items():
@@ -1427,7 +1569,12 @@ def run(tier: str, replay: str | None = None):
                        "observed": {"codes": codes, "cpython_raises": raised},
                        "expected": "bad_format_string is reported iff evaluating the f-string raises",
                        "how_to_run": "./check C17 --replay <this file>"})
-    found_input = bool(total["new"]) or bool(e2e_type_mismatch) or bool(fstring_mismatch)
+    callform_fail = callform_fail + callform_extra
+    for src, what, form in callform_fail[:5]:
+        rep.violation({"kind": "failing-input", "input": {"kind": "expression", "callform": ("unmodelled" if form in ("format_map", "mod_dunder", "mod_unbound", "operator_mod") else "modelled"), "python": src},
+                       "observed": what, "expected": "a formatting call is reported iff CPython raises (the 'not used' lint apart); spellings pyanalyze does not check must at least not be reported when they evaluate fine",
+                       "how_to_run": "./check C17 --replay <this file>"})
+    found_input = bool(total["new"]) or bool(e2e_type_mismatch) or bool(fstring_mismatch) or bool(callform_fail)
     if total["spec"]:
         expr, py, ml = total["spec"][0]
         # the specification model disagrees with the interpreter: the harness is wrong, not pyanalyze
@@ -1461,6 +1608,8 @@ def run(tier: str, replay: str | None = None):
         end_to_end_revealed_types_checked=e2e_types,
         end_to_end_type_mismatches=len(e2e_type_mismatch),
         fstrings=n_fstrings,
+        call_forms=callform_n,
+        call_form_distribution=callform_hist,
         input_distribution=hist,
         correspondence_mismatches=total["n_corr"],
         spec_mismatches=total["n_spec"],
